@@ -71,6 +71,9 @@ pub uninterp spec fn sock_failed(r: &VerifBufReader) -> bool;
 impl ReadSpecImpl for VerifBufReader {
     open spec fn stream(&self) -> Seq<u8> { sock_stream(self) }
     open spec fn failed(&self) -> bool { sock_failed(self) }
+    open spec fn release(&self) -> Seq<u8> { sock_stream(self) }     // a raw source: handed on where it stands
+    open spec fn drained(&self) -> Seq<u8> { Seq::empty() }
+    open spec fn owns_source(&self) -> bool { true }
 }
 #[verifier::external] impl Read for VerifBufReader { fn read(&mut self, buf: &mut [u8]) -> io::Result<usize> { unimplemented!() } }
 pub uninterp spec fn bufwriter_chan(w: &VerifBufWriter) -> int;
@@ -98,6 +101,9 @@ pub uninterp spec fn seq_reader_failed<R: Read + Send>(r: &SequentialReader<R>) 
 impl<R: Read + Send> ReadSpecImpl for SequentialReader<R> {
     open spec fn stream(&self) -> Seq<u8> { seq_reader_stream(self) }
     open spec fn failed(&self) -> bool { seq_reader_failed(self) }
+    open spec fn release(&self) -> Seq<u8> { seq_reader_stream(self) }   // SequentialReader::drop sends its reader on as it is
+    open spec fn drained(&self) -> Seq<u8> { Seq::empty() }
+    open spec fn owns_source(&self) -> bool { true }
 }
 #[verifier::external] impl<R: Read + Send> Read for SequentialReader<R> { fn read(&mut self, buf: &mut [u8]) -> io::Result<usize> { unimplemented!() } }
 #[verifier::external] impl<W: Write + Send> Write for SequentialWriter<W> { fn write(&mut self, buf: &[u8]) -> io::Result<usize> { unimplemented!() } fn flush(&mut self) -> io::Result<()> { unimplemented!() } }
